@@ -461,6 +461,11 @@ def run(ctx):
     replay_first(ctx)
     t0 = time.time()
     ctx.prove("Props/C04.v")
+    # tie 1 (translator): the kernels this property speaks about, regenerated from op_*.rs, ARE the model (Props/C04Gen.v);
+    # a difference is reported as broken and the correspondence runs below search for the concrete input
+    ctx.translate(steps=("kernels",))
+    ctx.prove("Props/C04Gen.v")
+
     t1 = time.time()
     symrun.run(ctx, kernels=["KSum", "KDot", "KNorm", "KEuclid"])
     t2 = time.time()
